@@ -193,6 +193,29 @@ def c11(rep, tier):
             okerr = (not inside) and guarded
     B.check(okerr, 'apply_macros: exhaustion reported', 'if (changed) push MACRO_APPLY_REACHED_MAX_PASSES after the loop',
             'an exhausted budget is not reported: an unfinished expansion passes as correct', W(am, None, mm.facts))
+    # the flag that is tested after the loop is the one the last pass left: nothing clears it in between
+    if flag is not None:
+        for ev in g.events:
+            e = ev.e
+            if e.get('k') == 'assign' and strip_casts(e['l']).get('d') == flag.get('d') and not any(x is e for x in walk_all_exprs(mm.budget)):
+                # an assignment outside the budget loop: before it (initialisation) or after it
+                bud_cond = [n for n in g.nodes if n.kind == 'cond' and n.stmt is mm.budget]
+                after = bool(bud_cond) and bud_cond[0].id in g.dom[ev.node.id]
+                if not after:
+                    continue
+                val = strip_casts(e['r'])
+                if val.get('k') == 'bool' and val.get('v') is False or val.get('v') is False:
+                    # cleared after the loop: sound only if *no* usable detector matches any more
+                    gtxt = ' '.join(show(c) for c, l, cn in g.guards_of(ev))
+                    in_loop_over_all = any(st['k'] in ('rangefor', 'for') and any(x is e for x in walk_all_exprs(st['body'])) and
+                                           any(t in show(st.get('range') or st.get('c') or {}) for t in ('prios', 'usable', 'detectors'))
+                                           for st in walk_stmts(am['body']) if st is not mm.budget)
+                    if 'detect' in gtxt and not in_loop_over_all:
+                        B.violation('apply_macros: flag after the loop', 'the change flag is cleared after the budget loop when ONE detector no longer matches (%s): with mutually '
+                                    'recursive macros the macro that fired last never matches its own output, so an unfinished expansion is returned without the '
+                                    'too-many-substitutions error' % gtxt[:100], W(am, e, mm.facts), witness={'macros': 'DEFINE ping AS pong END DEFINE  DEFINE pong AS ping END DEFINE', 'input': 'x0 := ping'})
+                    else:
+                        B.unknown('apply_macros: flag after the loop', 'the change flag is cleared after the budget loop under %s' % (gtxt[:100] or 'no condition'))
     # leaving early when nothing changed
     early = False
     for st in (mm.budget['body']['s'] if mm.budget['body']['k'] == 'block' else []):
@@ -286,6 +309,22 @@ def forwarded_errors_rule(R, pf, parse):
     R.check(not early and bool(merge_nodes), 'parse: no return before the merge', 'every return after a stage is dominated by the merge of the stage errors',
             'parse() can return at line %s after a stage ran but before its errors were merged: the tree is incorrect with an empty error list'
             % (early[0].stmt['loc'][0] if early else '?'), W(parse, early[0].stmt if early else None, pf))
+    # inside the merge every error is forwarded: the push is not skipped for some of them
+    for st in walk_stmts(parse['body']):
+        if st['k'] != 'rangefor':
+            continue
+        for e in walk_all_exprs(st['body']):
+            if is_call(e, '::push_back') and field_chain(e['obj'])[1][-1:] == ['errors'] and e.get('sid') in g.by_sid:
+                if any(x is not st and x['k'] == 'rangefor' and any(y is e for y in walk_all_exprs(x['body'])) for x in walk_stmts(st['body'])):
+                    continue      # judged at the innermost loop
+                ev = g.by_sid[e['sid']]
+                conds = [(c, l) for c, l, cn in g.guards_of(ev) if isinstance(l, bool) and cn.stmt is not None and cn.stmt.get('k') == 'if' and
+                         any(x is cn.stmt for x in walk_stmts(st['body']))]
+                skips = [x for x in walk_stmts(st['body']) if x['k'] in ('continue', 'break')]
+                R.check(not conds and not skips and not ev.conditional, 'parse: every error is forwarded', 'the push into the syntax-error list is unconditional inside the merge',
+                        'the merge skips some errors (%s): a stage can fail while the error list stays empty, so the parse counts as correct' % (
+                            show(conds[0][0])[:60] if conds else ('%s at line %s' % (skips[0]['k'], skips[0]['loc'][0]) if skips else 'conditional expression')),
+                        W(parse, e, pf))
     for v in stage_vars:
         R.check(v['d'] in merged, 'parse: %s.errors' % v['name'], 'merged into the syntax-error list', 'the errors of stage %s (%s) are dropped' % (v['name'], v['cty']),
                 W(parse, v, pf))
@@ -332,6 +371,11 @@ def c10(rep, tier):
                 if path == ['text']:
                     text_e = mm.M.origin(gr, val)
                 if path == ['t'] and 'ID' == show(val).split('::')[-1]:
+                    kind_ok = True
+            if e.get('k') == 'construct' and e.get('rec') == 'Theo::Token' and len(e.get('args', [])) == 4:
+                # the renamed token built with the constructor: Token(kind, text, file, line)
+                text_e = mm.M.origin(gr, e['args'][1])
+                if show(strip_casts(e['args'][0])).split('::')[-1] == 'ID':
                     kind_ok = True
     if text_e is None:
         A.unknown('get_replacement: TEMP_VAL', 'no assignment to .text found')
@@ -946,7 +990,7 @@ def c12(rep, tier):
             continue
         name = f['sig'].split('(')[1].split(' ')[1] if '(' in f['sig'] else f['sig']
         try:
-            c = cmpeval.Cmp(f)
+            c = cmpeval.Cmp(f, kf)
             tbl, problems, cnt = c.analyse(need_discriminating=True)
             # every field of the key record must take part
             rec = None
@@ -960,6 +1004,8 @@ def c12(rep, tier):
                 missing = [x['name'] for x in rec['fields'] if x['name'] not in c.fields]
             why = [p[1] for p in problems] + (['field(s) %s do not take part: distinct keys collapse' % missing] if missing else [])
             E.check(not why, 'operator<(%s)' % pt, 'strict weak order over %s (%d triples), equivalent only if all fields equal' % (c.fields, cnt), '; '.join(why), W(f, None, kf))
+        except cmpeval.Lossy as ex:
+            E.violation('operator<(%s)' % f['params'][0]['cty'], 'the order does not discriminate distinct keys: %s' % ex, W(f, None, kf))
         except cmpeval.Unsupported as ex:
             E.unknown('operator<(%s)' % f['params'][0]['cty'], str(ex))
 
@@ -1281,12 +1327,14 @@ def c06e(rep, tier):
             continue
         rep.analysed(f)
         try:
-            c = cmpeval.Cmp(f)
+            c = cmpeval.Cmp(f, kf)
             tbl, problems, cnt = c.analyse(need_discriminating=True)
             missing = [x for x in ('file', 'line') if x not in c.fields]
             why = [p[1] for p in problems] + (['field %s ignored' % missing] if missing else [])
             E.check(not why, 'operator<(BreakPoint)', 'strict weak order over %s (%d triples), equivalent only if file and line are equal' % (c.fields, cnt),
                     '; '.join(why), W(f, None, kf))
+        except cmpeval.Lossy as ex:
+            E.violation('operator<(BreakPoint)', 'the order does not discriminate distinct locations: %s' % ex, W(f, None, kf))
         except cmpeval.Unsupported as ex:
             E.unknown('operator<(BreakPoint)', str(ex))
 
